@@ -33,7 +33,8 @@ def apply_contract(ip, contract, info, args, kwargs):
     env = dict(argmap)
     env.update({'S': S, 'E': Env(ip), 'ghost': NS(ip.state.ghost)})
     for name, ty in contract.skolems.items():
-        env[name] = ctx.skolems.get(name) or Sym(ctx.fresh('sk_' + name, Kind(ty).sort()), ty)
+        sk = ctx.skolems.get(name)
+        env[name] = sk if sk is not None else Sym(ctx.fresh('sk_' + name, Kind(ty).sort()), ty)
     site = '%s<-%s' % (contract.qualname, ip.verifying)
     for label, fn in contract.requires.items():
         ctx.oblige('callsite-pre:%s/%s' % (site, label), ops.bterm(_b(call_clause(fn, env))))
@@ -73,6 +74,15 @@ def apply_contract(ip, contract, info, args, kwargs):
     env['result'] = result
     for label, fn in contract.ensures.items():
         ctx.assume(ops.bterm(_b(call_clause(fn, env))))
+    # further instances of the callee's universally quantified postconditions (chosen by the caller's contract)
+    for name in contract.skolems:
+        for inst in ctx.instances.get(name, []):
+            env2 = dict(env)
+            env2[name] = inst(env2) if callable(inst) else inst
+            import inspect as _insp
+            for label, fn in contract.ensures.items():
+                if name in _insp.signature(fn).parameters:
+                    ctx.assume(ops.bterm(_b(call_clause(fn, env2))))
     return result
 
 
